@@ -88,4 +88,4 @@ ME_LAYOUT = {
               ("common-GICB", _me(36, 36)), ("ACAS-res", _me(37, 40)), ("bit-array", _me(41, 56))],
     "BDS20": [("code", _me(1, 8))] + [("C%d" % (k + 1), _me(9 + 6 * k, 14 + 6 * k)) for k in range(8)],
 }
-RESERVED_NAMES = {"reserved", "reserved2", "CC-res", "OM-res", "spare"}
+RESERVED_NAMES = {"reserved", "reserved2", "CC-res", "OM-res", "spare", "CC-00", "CC-00b", "OM-00"}
